@@ -238,8 +238,11 @@ pub fn c05() -> Outcome {
         let mut i = inst(vec![dv(0, Kind::Continuous, None), dv(1, Kind::Continuous, None), dv(2, Kind::Continuous, None)], f_of(F::Linear(lin(&[(0, 1.0)], 0.0))), vec![]);
         i.decision_variables[1].substituted_value = Some(4.0);
         i.decision_variable_dependency.insert(2, f_of(F::Linear(lin(&[(0, 2.0)], 1.0))));
+        // a chain of dependent variables x10 := x2 + 1, x11 := x10 + 1, ... x16 := x15 + 1 (every HashMap order must give the same answer)
+        for k in 10..=16u64 { i.decision_variables.push(dv(k, Kind::Continuous, None)); i.decision_variable_dependency.insert(k, f_of(F::Linear(lin(&[(if k == 10 { 2 } else { k - 1 }, 1.0)], 1.0)))); }
         let (sol, _) = i.evaluate(&state(&[(0, 3.0)])).unwrap();
         let st = sol.state.unwrap().entries;
+        for k in 10..=16u64 { if st.get(&k) != Some(&(7.0 + (k - 9) as f64)) { return Outcome { cases: n, distinct: d.len(), fail: Some(format!("dependent chain x10 := x2+1, x11 := x10+1, ...: reported state {st:?}, expected x{k} = {}", 7.0 + (k - 9) as f64)) }; } }
         if st.get(&0) != Some(&3.0) || st.get(&1) != Some(&4.0) || st.get(&2) != Some(&7.0) { return Outcome { cases: n, distinct: d.len(), fail: Some(format!("reported state {st:?}, expected x0=3 (given), x1=4 (fixed), x2=7 (dependent = 2*x0+1)")) }; }
     }
     Outcome { cases: n, distinct: d.len(), fail: None }
@@ -342,6 +345,8 @@ pub fn c08() -> Outcome {
             vec![con(10, Equality::EqualToZero, f_of(F::Linear(lin(&[(1, 1.0), (2, 1.0)], -1.0)))), con(11, Equality::LessThanOrEqualToZero, f_of(F::Linear(lin(&[(3, 1.0)], -4.0)))),
                  con(12, Equality::LessThanOrEqualToZero, f_of(F::Quadratic(quad(&[(1, 2, 1.0)], None))))]);
         i.relax_constraint(12, "x".to_string(), HashMap::new()).unwrap();
+        i.constraints.push(con(13, Equality::LessThanOrEqualToZero, f_of(F::Linear(lin(&[(2, 1.0)], -1.0)))));
+        i.relax_constraint(13, "y".to_string(), HashMap::new()).unwrap();
         let mut h = v1::ConstraintHints::default();
         let mut oh = v1::OneHot::default(); oh.constraint_id = 10; oh.decision_variables = vec![1, 2];
         let mut s1 = v1::Sos1::default(); s1.binary_constraint_id = 10; s1.big_m_constraint_ids = vec![11, 10]; s1.decision_variables = vec![1, 2];
@@ -356,6 +361,9 @@ pub fn c08() -> Outcome {
         ("duplicate variable id", Box::new(|i| i.decision_variables[1].id = 1), true, true),
         ("duplicate id active/active", Box::new(|i| i.constraints[1].id = 10), true, true),
         ("duplicate id active/removed", Box::new(|i| i.removed_constraints[0].constraint.as_mut().unwrap().id = 11), true, true),
+        ("duplicate id removed/removed", Box::new(|i| i.removed_constraints[1].constraint.as_mut().unwrap().id = 12), true, true),
+        ("duplicate id active/active (last two)", Box::new(|i| i.constraints[0].id = 11), true, true),
+        ("undefined id in active constraint", Box::new(|i| i.constraints[1].function = Some(f_of(F::Quadratic(quad(&[(3, 9, 1.0)], None))))), true, false),
         ("undefined id in objective", Box::new(|i| i.objective = Some(f_of(F::Linear(lin(&[(9, 1.0)], 0.0))))), true, false /* D7 known finding: try_from accepts */),
         ("undefined id in removed constraint", Box::new(|i| i.removed_constraints[0].constraint.as_mut().unwrap().function = Some(f_of(F::Linear(lin(&[(9, 1.0)], 0.0))))), true, false),
         ("sense unspecified", Box::new(|i| i.sense = 0), false, true),
